@@ -189,6 +189,10 @@ def run(ctx: Ctx) -> None:
         rep.unknown("C11.R1", detector.qname, "overlap detector does not use groupby: grouping idiom not recognised", detector.loc())
     rep.floor("C11.R1", n_gb, 1)
 
+    # ---- R6: the overlap test covers the complete path map (root path of dds.keep included) ----
+    rep.rule("C11.R6", "the overlap detector is applied to the map that is committed (all_store_paths of the interactions with the root path attached)")
+    _overlap_input(ctx, top, detector)
+
     # ---- R2 / R3 (static) / R5 -----------------------------------------------------------------
     insp = inspectors(ctx)
     n_desc = 0
@@ -368,6 +372,45 @@ def run(ctx: Ctx) -> None:
         else:
             rep.bad("C11.R4", top.qname, desc, where, w, stmt_key(t) + "ov", what=f"{kind} can run before overlapping paths are rejected")
     rep.floor("C11.R4", len(targets), 3)
+
+
+def _overlap_input(ctx: Ctx, top: Func, detector: Func) -> None:
+    rep = ctx.report
+    prog = ctx.prog
+    fl = flow_of(prog, top)
+    dcalls = [n for n in top.own_nodes() if isinstance(n, ast.Call) and detector in prog.callees(top, n, ctx._types)[0]]
+    req = None
+    for n in top.own_nodes():
+        if isinstance(n, ast.Call) and isinstance(n.func, ast.Attribute) and n.func.attr == "_replace":
+            for k in n.keywords:
+                if k.arg == "requested_paths":
+                    req = k.value
+    if not dcalls or req is None or not isinstance(req, ast.Name):
+        rep.unknown("C11.R6", top.qname, "cannot relate the overlap detector's input to the evaluation's path map", top.loc())
+        return
+    dc = dcalls[0]
+    arg = dc.args[0] if dc.args else None
+    sl = ctx.slicer(follow_calls=False).slice(top, arg) if arg is not None else None
+    same = sl is not None and sl.find(lambda f_, n_: isinstance(n_, ast.Name) and n_.id == req.id and set(fl.defs_of_use(n_)) == set(fl.defs_of_use(req))) is not None
+    desc = "the overlap test examines the keys of the evaluation's complete path map"
+    if not same:
+        rep.bad("C11.R6", top.qname, desc, top.loc(dc), [f"detector input `{unparse(arg, 60)}` does not derive from `{req.id}` (the map assigned to requested_paths)"],
+                "overlap-input", what="the overlap test does not see every kept path of the evaluation")
+        return
+    # the map itself includes the root path: all_store_paths(<interactions with store_path attached>)
+    root_ok = False
+    for d in fl.defs_of_use(req):
+        v = d.value
+        if isinstance(v, ast.Call) and unparse(v.func).endswith("all_store_paths") and v.args and isinstance(v.args[0], ast.Name):
+            for d2 in fl.defs_of_use(v.args[0]):
+                if isinstance(d2.value, ast.Call) and isinstance(d2.value.func, ast.Attribute) and d2.value.func.attr == "_replace" and any(k.arg == "store_path" for k in d2.value.keywords):
+                    root_ok = True
+    if root_ok:
+        rep.ok("C11.R6", top.qname, desc + " (root path of dds.keep attached before collection)", top.loc(dc))
+    else:
+        rep.bad("C11.R6", top.qname, desc, top.loc(dc), [f"the map `{req.id}` examined at {top.loc(dc)} is collected before / without the path of the outermost dds.keep",
+                "an overlap that involves the outermost kept path is not rejected: user code runs and blobs are stored before a low-level error at path commit"],
+                "overlap-root", what="the outermost kept path is not part of the overlap test")
 
 
 def _pair_base(fl, name: ast.Name):
